@@ -246,11 +246,18 @@ def record_events(T: Targets, rnd: random.Random, per_len: int, maxlen: int):
                     t = t.replace("B", "8") if rnd.random() < .5 else t.replace("O", "0")
                     rec("b32dec", "b32", t.encode(), outcome(T.pb.b32decode, t))
     # transposition with the offset tables the hashes use (taken from the code)
-    tables = [("md5_crypt", md5_crypt._transpose_map), ("sha256_crypt", sha2_crypt._256_transpose_map),
-              ("sha512_crypt", sha2_crypt._512_transpose_map), ("sha1_crypt", sha1_crypt.sha1_crypt._chk_offsets),
-              ("sun_md5_crypt", sun_md5_crypt._chk_offsets),
-              ("libpass sha256", lsc._256_transpose_map), ("libpass sha512", lsc._512_transpose_map)]
+    def G(owner, *path):
+        for a in path:
+            owner = getattr(owner, a, None)
+        return owner
+    tables = [("md5_crypt", G(md5_crypt, "_transpose_map")), ("sha256_crypt", G(sha2_crypt, "_256_transpose_map")),
+              ("sha512_crypt", G(sha2_crypt, "_512_transpose_map")), ("sha1_crypt", G(sha1_crypt, "sha1_crypt", "_chk_offsets")),
+              ("sun_md5_crypt", G(sun_md5_crypt, "_chk_offsets")),
+              ("libpass sha256", G(lsc, "_256_transpose_map")), ("libpass sha512", G(lsc, "_512_transpose_map"))]
     for tname, offs in tables:
+        if offs is None:        # (an internal table that was renamed away: nothing to transpose with)
+            chk.uncovered.append(f"transposition table of {tname} not found under its usual name")
+            continue
         offs = list(offs)
         size = max(offs) + 1
         eng = T.lb.h64_engine if tname.startswith("libpass") else T.pb.h64
